@@ -36,6 +36,8 @@ pub struct ConcScenario {
     /// The controller drops its own handle before the actors start.
     pub drop_controller_handle: bool,
     pub cancels: bool,
+    /// Switching between actors at operation boundaries is free.
+    pub free_boundaries: bool,
 }
 
 impl ConcScenario {
@@ -48,6 +50,7 @@ impl ConcScenario {
             prefill_cycles: 0,
             drop_controller_handle: false,
             cancels: true,
+            free_boundaries: true,
         }
     }
 }
@@ -196,15 +199,19 @@ pub fn check_exact(w: &mut World, st: &Status, waiters: usize, at: &str) {
     }
     let size = w.live();
     let idle = w.idle();
+    // the first exact check after an abandoned get() also decides C03
+    // ("status() again reports the earlier figures")
+    let props: Vec<&'static str> = if w.abandon_mark { vec!["C11", "C03"] } else { vec!["C11"] };
     if st.size != size {
-        w.violate(&["C11"], "size-at-rest", format!("{}: status().size {} but {} objects exist (idle {} + checked out {})", at, st.size, size, idle, w.held()));
+        w.violate(&props, "size-at-rest", format!("{}: status().size {} but {} objects exist (idle {} + checked out {})", at, st.size, size, idle, w.held()));
     }
     if st.available != idle {
-        w.violate(&["C11"], "available-at-rest", format!("{}: status().available {} but {} objects are idle", at, st.available, idle));
+        w.violate(&props, "available-at-rest", format!("{}: status().available {} but {} objects are idle", at, st.available, idle));
     }
     if st.waiting != waiters {
-        w.violate(&["C11"], "waiting-at-rest", format!("{}: status().waiting {} but {} callers are blocked in get()", at, st.waiting, waiters));
+        w.violate(&props, "waiting-at-rest", format!("{}: status().waiting {} but {} callers are blocked in get()", at, st.waiting, waiters));
     }
+    w.abandon_mark = false;
     if w.close_returned && idle > 0 {
         w.violate(&["C06"], "idle-object-in-closed-pool", format!("{}: closed pool still owns {} idle objects", at, idle));
     }
@@ -263,10 +270,11 @@ fn slot_waiters(n_actors: usize) -> Option<Vec<usize>> {
 
 pub fn run_conc(sc: &ConcScenario) -> Outcome {
     sched::begin();
+    sched::set_free_boundaries(sc.free_boundaries);
     init_world(sc.cfg.clone(), &sc.base);
     let pool = build_pool();
     let (slots_id, _, _) = pool.verif_ids();
-    w(|w| w.handles = 1);
+    w(|w| w.handles = 2);
     // non-initial start state
     if sc.prefill > 0 {
         w(|w| {
@@ -404,12 +412,21 @@ pub fn run_conc(sc: &ConcScenario) -> Outcome {
         Verdict::Stopped => {}
     }
     let deadlocked = matches!(verdict, Verdict::Deadlock(_) | Verdict::Horizon);
-    if !deadlocked && machinery.is_none() {
-        if !sched::wind_down() {
-            machinery = Some("wind-down could not finish every actor".to_string());
-        }
-        if machinery.is_none() {
-            machinery = sched::machinery_error();
+    let cascade = !w(|w| w.viol.is_empty()) || machinery.is_some();
+    if !deadlocked {
+        // finish every actor so that its coroutine stack can be reused; what
+        // happens during this after a violation is not reported
+        let saved = w(|w| w.viol.clone());
+        let ok = sched::wind_down();
+        if cascade {
+            w(|w| w.viol = saved);
+        } else {
+            if !ok {
+                machinery = Some("wind-down could not finish every actor".to_string());
+            }
+            if machinery.is_none() {
+                machinery = sched::machinery_error();
+            }
         }
     }
     if !deadlocked && machinery.is_none() && w(|w| w.viol.is_empty()) {
@@ -491,6 +508,7 @@ pub fn probe(pool: &Pool<Mgr>) {
                 w(|w| {
                     w.get_cancelled(gi);
                     w.abandoned -= 1;
+                    w.abandon_mark = false;
                     w.end_op(PROBE);
                     let b = w.blame();
                     w.violate(&b, "nonblocking-get-pending", "a zero-wait get() returned Pending".to_string());
@@ -548,6 +566,7 @@ pub fn probe(pool: &Pool<Mgr>) {
                 w(|w| {
                     w.get_cancelled(gi);
                     w.abandoned -= 1;
+                    w.abandon_mark = false;
                     w.end_op(PROBE);
                     if !lims.contains(&0) {
                         let b = w.blame();
